@@ -35,9 +35,12 @@ class Ctx:
         # suite then still runs in about a minute on 16 cores; small-scope bounds (quick < 10) are left alone
         if self.thorough:
             return thorough
+        scale = int(os.environ.get("VERIF_QUICK_SCALE", "3"))
         if quick < 10:
-            return quick
-        return min(thorough, quick * int(os.environ.get("VERIF_QUICK_SCALE", "3")))
+            # small-scope classes (long calls, batch boundaries, exhaustive compositions): x3 at the base scale, x6 when code of an
+            # anchored crate has changed (see ./check: source_state) — that is when the model may be stale and search effort pays
+            return min(thorough, quick * (6 if scale >= 30 else 3)) if scale >= 10 else quick
+        return min(thorough, quick * scale)
 
     def run(self, cases, layers=("impl", "spec")):
         res = execute(cases, self.hbin, layers=layers)
